@@ -4,7 +4,9 @@ import (
 	"context"
 	"fmt"
 	"io"
+	"os"
 	"os/exec"
+	"path/filepath"
 	"sync"
 
 	hclog "github.com/hashicorp/go-hclog"
@@ -74,9 +76,19 @@ func (r *scriptRunner) Start(ctx context.Context) error {
 	if err != nil {
 		return err
 	}
+	// a real plugin binds its socket inside the directory the runner was given (PLUGIN_UNIX_SOCKET_DIR); if
+	// the process is killed that file stays behind, a graceful exit unlinks it (script returned normally)
+	sock := ""
+	if r.tmpDir != "" {
+		sock = filepath.Join(r.tmpDir, "plugin-socket-of-the-scripted-process")
+		os.WriteFile(sock, nil, 0o600)
+	}
 	r.x.Go(r.dom.Name, func() {
 		defer r.exit()
 		r.script(r)
+		if sock != "" && !r.hasExited() {
+			os.Remove(sock)
+		}
 	})
 	return nil
 }
